@@ -79,6 +79,9 @@ def run(ctx):
         if base is None:
             continue
         report(res, base, kind, hist, pol, None)
+        if stuck(res):
+            res.count("stopped-early-after-repeated-nontermination")
+            return res
         n_ops = base.io_ops_total
         base.finish()
         res.count("fault-free-runs")
@@ -103,10 +106,18 @@ def run(ctx):
                     continue
                 report(res, r, kind, hist, pol, (k, fk))
                 r.finish()
+                if stuck(res):
+                    res.count("stopped-early-after-repeated-nontermination")
+                    return res
                 res.count(f"fault-runs:{fk}")
         if idx < 3 * ctx.nshards:
             res.sample({"driver": kind, "history": list(hist), "policy": pol, "io_ops": n_ops, "events": base.events[:6]})
     return res
+
+
+def stuck(res):
+    """calls that do not terminate burn their whole step budget each: once that has been witnessed a few times the verdict is in"""
+    return sum(n for k, n in res.viol_counts.items() if k.startswith("call-does-not-terminate")) >= 5
 
 
 def report(res, r, kind, hist, pol, fault):
